@@ -140,6 +140,33 @@ CHECKS["C01"] = dict(
     technique="Lean 4 proof (relational greedy cover, Finset telescoping on the Hanan grid) + Rat/Float model correspondence + exact-decimal document oracle",
     design="§7 C01")
 
+CHECKS["C13"] = dict(
+    text="Partial with respect to floating point, by nature. Machine-checked (Lean 4) over any ordered field, for every numeric "
+         "library (sqrt/pow uninterpreted), every disc-overlap function, every spring constant kappa > 0, iteration count and netlist: "
+         "fixed modules come back identical ((c-s)+s = c); after EVERY step each movable position is clamped into the die whatever the "
+         "forces are (the clamp lemma is proved for any type with a decidable order, so it also covers IEEE doubles incl. NaN/inf), "
+         "hence all centres end inside the die; only centres change (die, nets, areas, rectangles, flags untouched); the layout returned "
+         "by force_algorithm is the first strict minimum of cost over the 12 kappa tried and is the layout that was scored. The Float "
+         "model is bit-exact with the Python on single steps at arbitrary states, runs of <= 5 iterations, wire length, overlap, cost and "
+         "argmin; long runs are checked clause by clause (finite, inside, fixed unmoved within 4 ulp, determinism, minimal recomputed cost).",
+    note="Finiteness and the <= 1 ulp drift of c-s+s are float facts: searched, not proved; kappa > 0 (kappa = 0 divides by zero); "
+         "circle_circle_intersection_area is an opaque parameter here (C17); deepcopy assumed faithful; model fidelity sampled.",
+    technique="Lean 4 invariant proofs over ordered fields with uninterpreted libm + bit-level Float model correspondence + clause evaluation on long runs",
+    design="§7 C13")
+CHECKS["C14"] = dict(
+    text="Partial with respect to floating point, by nature. Machine-checked (Lean 4) for EVERY list of random.uniform results, every "
+         "trial count and iteration bound (this discharges the 'all seeds' quantifier): every row returned by spectral_layout_die is an "
+         "output of normalize, so every movable module outside the documented |x| <= 1e-9 escape (explicit hypothesis, witnessed real by "
+         "a kernel-checked example, watched at run time: 0 hits) has |c| <= size/2 - r and its disc lies in the die; fixed nodes return "
+         "where they were; hard modules are translated rigidly with centroid = assigned centre; masses, flags, shapes, nets unchanged; the "
+         "result is exactly one trial's output (best-of-n). The model (with CPython's Neumaier sum()) is bit-exact with the Python on unit "
+         "operations, whole spectral_layout_die runs with captured draws (iteration counts equal) and whole spectral_layout runs.",
+    note="Theorems are conditional on the run returning (orthogonality assert / divisions searched on admissible inputs: none failed); "
+         "float margin 1e-9*size; radius = sqrt(area/pi) with sqrt uninterpreted >= 0; movable terminals outside the quantifier; "
+         "convergence not needed and not claimed.",
+    technique="Lean 4 post-condition chain for all draw lists + bit-level Float model correspondence with captured RNG draws + clause evaluation over seeds x trials",
+    design="§7 C14")
+
 NOT_APPLICABLE = {}
 
 def main():
